@@ -116,6 +116,23 @@ def reset_paths(ctx, clr):
     return definite, per_path, const_stores
 
 
+def nested_clear_prefixes(ctx, clr, clear_keys):
+    """access-path prefixes on which a nested clear() is invoked on every returning path of clr"""
+    pe = PathEnumerator(clr, ctx.prog, ctx.summ)
+    per = []
+    for p in pe.paths():
+        if p.exit_kind != "return":
+            continue
+        here = set()
+        for e in p.events:
+            if e["kind"] == "call" and e["callee"] in clear_keys and e["callee"] != clr.key:
+                pa = e["ptr_args"]
+                if pa and pa[0] is not None and pa[0][1] is not None and pa[0][1].root == SELF:
+                    here.add(norm_path(pa[0][1].path))
+        per.append(here)
+    return set.intersection(*per) if per else set()
+
+
 def covered(path, resets):
     return any(path[:len(r)] == r for r in resets)
 
@@ -168,9 +185,13 @@ def run(ctx):
             ctx.fail("R19-clear-covers-state", adt + ":<no-return-path>", clr, "clear() has no returning path")
             continue
         short = adt.split("::")[-1]
+        nested_cleared = nested_clear_prefixes(ctx, clr, {c.key for c in clears})
         for path in sorted(mut):
             m, w = mut[path][0]
             pstr = ".".join(path)
+            if any(path[:len(pre)] == pre and len(path) > len(pre) for pre in nested_cleared):
+                ctx.ok("R19-clear-covers-state", "%s:%s" % (adt, pstr), "`%s` belongs to a nested structure whose own clear() is called on every path (decided at that type)" % pstr, nontrivial=False)
+                continue
             writers = sorted({mm.name for mm, _ in mut[path]})
             ctx.check(covered(path, definite), "R19-clear-covers-state", "%s:%s" % (adt, pstr), clr,
                       "`%s` (written by %s) is reset on every path of clear()" % (pstr, ",".join(writers)),
@@ -205,7 +226,16 @@ def run(ctx):
                                 fs = pl.fields()
                                 if fs:
                                     reads.add(tuple(fs[:1]))
-            unreset = [r for r in reads if r in {p[:1] for p in mut} and not covered(r, definite)]
+            # a wrapper that only hands its nested structure to that structure's own is_empty is decided there
+            delegates = set()
+            from ..paths import Origins
+            org = Origins(ie)
+            for bi, t in ie.calls():
+                if t.callee_is_local() and t.callee_name() == "is_empty" and t.args and t.args[0].place is not None and t.args[0].place.is_local():
+                    o = org.of_local(t.args[0].place.local)
+                    if o is not None and o.root == SELF and o.path:
+                        delegates.add(tuple(o.path[:1]))
+            unreset = [r for r in reads if r in {p[:1] for p in mut} and not covered(r, definite) and r not in delegates]
             ctx.check(not unreset, "R19-is-empty", ie.key, ie, "is_empty reads %s — all reset by clear()" % sorted(".".join(r) for r in reads),
                       "is_empty reads `%s`, which clear() does not reset" % ".".join(unreset[0]) if unreset else "")
 
